@@ -610,6 +610,12 @@ class Interp(BuiltinsMixin):
                        if h.kind in ('list', 'set', 'dict')}
         for (q, sig) in results:
             if sig is None or sig == CNT or sig == BRK:
+                for n in assigned:
+                    nv = q.heap[fr].vars.get(n)
+                    if nv is not None and not isinstance(nv, Obj):
+                        loop.updates.setdefault(n, [])
+                        if nv not in loop.updates[n]:
+                            loop.updates[n].append(nv)
                 self.merge_iteration(after, q, entry_pc_len, base_heap_ids,
                                      fr, loop, entry_parts)
             else:
@@ -635,7 +641,9 @@ class Interp(BuiltinsMixin):
         for n in assigned:
             v = f.vars.get(n)
             if not isinstance(v, Obj):
-                f.vars[n] = after.fresh('w_' + n, meta=('loopvar', loop, v))
+                ups = tuple(loop.updates.get(n, ()))
+                f.vars[n] = after.fresh('w_' + n,
+                                        meta=('loopvar', loop, v, ups))
         if is_for and isinstance(st.target, ast.Name):
             f.vars[st.target.id] = after.fresh('last_' + st.target.id,
                                                meta=('elem', loop.iterable))
@@ -947,6 +955,7 @@ class LoopFrame(object):
         self.var = var
         self.iterable = iterable
         self.lid = lid
+        self.updates = {}
 
     def __repr__(self):
         return 'Loop(%r in %r)' % (self.var, self.iterable)
